@@ -28,6 +28,24 @@ TRUSTED = ["Model/C01_Model.v is hand-written (pointer surgery abstracted to ide
            "boltons.dictutils.OrderedMultiDict by the correspondence run",
            "harness/c01.py serialiser and token<->object map"]
 
+def translators(repo):
+    """No data is generated from the source for this property; this hook only keeps the two models in step:
+    coq/Model/C01_PModel.v (pointer level) must be exactly what translators/c01_pmodel.py derives from
+    coq/Model/C01_Model.v (fail closed otherwise)."""
+    import os
+    import sys
+    here = os.path.join(os.path.dirname(os.path.abspath(__file__)), "translators")
+    if here not in sys.path:
+        sys.path.insert(0, here)
+    import c01_pmodel
+    want = c01_pmodel.generate()
+    have = open(os.path.join(c01_pmodel.COQ, "Model", "C01_PModel.v")).read()
+    if want != have:
+        raise RuntimeError("coq/Model/C01_PModel.v is not the translation of coq/Model/C01_Model.v; "
+                           "run harness/translators/c01_pmodel.py")
+    return {}
+
+
 # tokens -> pairwise unequal hashable python objects with eval()-able reprs; token 0 is None
 TOK = [None, "a", (1, 2), "k0", 3.5, "b", frozenset([7]), -1, "key", (), 17, "zz", b"y", 99, "q", ("t", None),
        2.5, "", (0,), -0.5]
